@@ -5,7 +5,7 @@
 import Genshi.Lemmas.TmplScanPrint
 import Genshi.Lemmas.PyLex
 namespace Genshi.Tmpl.Scan
-open Genshi.Py.Lex (lex lexGo lexGo_text lexGo_end flush)
+open Genshi.Py.Lex (lex lexGo lexGo_text lexGo_end flush lex_expr Scannable textChunk)
 
 theorem hasDollarBrace_free : ∀ (s : Str), (∀ c ∈ s, c ≠ '$') → hasDollarBrace s = false
   | [], _ => rfl
@@ -80,5 +80,40 @@ theorem parseNew_plain {s : Str} (hne : s ≠ []) (h : ∀ c ∈ s, c ≠ '$') (
     parseNew s = .ok [.text s] := by
   have := parseNew_escaped hne h
   rwa [escape_plain s hp] at this
+
+/-! ### interpolation composed with the scanner -/
+
+/-- plain text (no backslash, no start delimiter) is one text segment that `_escape_re` leaves alone:
+    the parsed stream is `interpolate` of the source -/
+theorem parseNew_plain_interpolate {s : Str} (hne : s ≠ []) (hp : plainNew s = true) :
+    parseNew s = interpolate s := by
+  have h1 : scanNew s = [.text s] := by
+    have := scanNew_escaped hne
+    rwa [escape_plain s hp] at this
+  have h2 : unescapeNew s = s := by
+    have := unescape_escape s
+    rwa [escape_plain s hp] at this
+  unfold parseNew
+  rw [h1]
+  simp only [parseToks, stepNew, h2]
+  cases interpolate s with
+  | error e => simp [result, bind, Except.bind]
+  | ok evs => simp [result, bind, Except.bind, pure, Except.pure, PSt.emit, parseToks]
+
+/-- **Expression boundaries in a text template.**  In plain text `pre ${inner} post` (no `$` in `pre`
+    and `post`) the parsed stream is the text before, one EXPR event whose source is exactly `inner`
+    (blanks stripped) and the text after — for every scannable `inner` (blanks, operators, words,
+    string literals with braces inside, balanced braces nested to any depth). -/
+theorem parseNew_expr (pre inner post : Str) (hpre : ∀ c ∈ pre, c ≠ '$') (hpost : ∀ c ∈ post, c ≠ '$')
+    (hi : Scannable inner) (hin : inner ≠ [])
+    (hp : plainNew (pre ++ '$' :: '{' :: (inner ++ '}' :: post)) = true)
+    (hm : Py.Lex.unmodelled (pre ++ '$' :: '{' :: (inner ++ '}' :: post)) = false) :
+    parseNew (pre ++ '$' :: '{' :: (inner ++ '}' :: post)) =
+      .ok (flushBuf pre ++ [.expr (Py.Lex.stripAscii inner)] ++ flushBuf post) := by
+  rw [parseNew_plain_interpolate (by simp) hp]
+  unfold interpolate
+  rw [hm, lex_expr pre inner post hpre hpost hi]
+  simp only [Bool.and_false, Bool.false_eq_true, if_false]
+  cases pre <;> cases post <;> cases inner <;> simp_all [textChunk, interpGo, flushBuf]
 
 end Genshi.Tmpl.Scan
